@@ -90,6 +90,90 @@ def generate(rng, tier):
         else:
             yield Case(op, [hx(signed(rng, a))])
 
+
+def boundary_cases(rng, tier):
+    """carry/borrow chains that grow or shrink the word count across the 1/2/3(/4)-word boundaries,
+    every sign combination, both operators, UBig and IBig and mixed kinds"""
+    B = 1 << 64
+    A = [B - 1, B, B * B - 1, B * B, B * B + 1, B ** 3 - 1, B ** 3, B * B - B, B * B + B - 1,
+         (B * B - 1) ^ (1 << 64), B ** 4 - 1]
+    D = [0, 1, 2, B - 1, B, B + 1, B * B - 1, B * B, B ** 3 - 1]
+    for a in A:
+        for d in D + [a, a - 1, a + 1]:
+            for sa in (1, -1):
+                for sb in (1, -1):
+                    for op in ("add", "sub"):
+                        yield Case("i." + op, [hx(sa * a), hx(sb * d)])
+                        yield Case("i." + op, [hx(sb * d), hx(sa * a)])
+            for op in ("add", "sub"):
+                yield Case("u." + op, [hx(a), hx(d)])
+                yield Case("u." + op, [hx(d), hx(a)])
+                yield Case("ui." + op, [hx(a), hx(-d)])
+                yield Case("iu." + op, [hx(-a), hx(d)])
+
+MUL_PAIRS_QUICK = [(24, 24), (24, 25), (25, 24), (25, 25), (3, 24), (24, 100), (25, 100), (24, 400),
+                   (192, 192), (192, 193), (193, 192), (193, 193), (100, 193), (1025, 3), (1025, 24),
+                   (1024, 24), (2049, 5), (1025, 25)]
+MUL_PAIRS_THOROUGH = [(1025, 1025), (1024, 1025), (2049, 24), (2049, 25), (2049, 192), (2049, 193),
+                      (2049, 2049), (2048, 2049), (4097, 24), (3000, 1025), (577, 193), (386, 385)]
+
+def mul_threshold_cases(rng, tier):
+    pairs = MUL_PAIRS_QUICK + (MUL_PAIRS_THOROUGH if tier == "thorough" else [])
+    reps = 1 if tier == "quick" else 3
+    for (na, nb) in pairs:
+        for _ in range(reps):
+            for pa, pb in (("ones", "ones"), ("random", "random"), (rng.choice(PATTERNS), rng.choice(PATTERNS))):
+                a = nat_pattern(rng, na, pa); b = nat_pattern(rng, nb, pb)
+                yield Case("u.mul", [hx(a), hx(b)])
+                yield Case("i.mul", [hx(signed(rng, a)), hx(signed(rng, b))])
+        a = nat_pattern(rng, na, "random")
+        yield Case("u.sqr", [hx(a)])
+
+def max_exp_in_word(b, W=64):
+    e, p = 1, b
+    while p * b < (1 << W):
+        e += 1; p *= b
+    return e
+
+def pow_cases(rng, tier):
+    """bases {0,1,2,2^k,3,10,B-1,B,B+1, 2-word, 3-word, bases with a factor 2^s} x exponents around the
+    shortcuts (0,1,2,3), around wexp / 2*wexp of the word lifting, and up to ~200, bounded by result size"""
+    B = 1 << 64
+    maxbits = 200_000 if tier == "quick" else 3_000_000
+    bases = [0, 1, 2, 3, 4, 5, 6, 7, 10, 12, 255, 256, 1 << 31, (1 << 32) - 1, 1 << 32, (1 << 32) + 1,
+             1 << 63, B - 1, B, B + 1, B + 2, 3 * B, B * B - 1, 1 << 100, (1 << 100) + (1 << 40),
+             B * B, B * B + 1, B ** 3 - 1, (B ** 3 - 1) << 7, 3 << 130, nat_pattern(rng, 3, "random"),
+             nat_pattern(rng, 3, "random") | 1, nat_pattern(rng, 4, "sparse"), nat_pattern(rng, 5, "random") << 3]
+    for k in (2, 3, 7, 16, 33, 62):
+        bases.append(1 << k)
+    nrand = 12 if tier == "quick" else 120
+    for _ in range(nrand):
+        bases.append(rng.getrandbits(rng.choice([5, 9, 17, 31, 33, 47, 63, 64])) | 1)
+        bases.append((rng.getrandbits(rng.choice([7, 20, 40, 64, 100, 128, 150, 200])) | 1) << rng.choice([0, 1, 5, 64, 70]))
+    for b in bases:
+        exps = {0, 1, 2, 3, 4, 5, 7, 8, 15, 16, 17, 31, 32, 33, 63, 64, 65, 100, 127, 128, 129, 200}
+        odd = b
+        while odd and odd % 2 == 0:
+            odd //= 2
+        if 2 < odd < B:
+            w = max_exp_in_word(odd)
+            exps |= {w - 1, w, w + 1, 2 * w - 1, 2 * w, 2 * w + 1, 3 * w, 3 * w + 1, 4 * w - 1, 5 * w + 2}
+        if tier == "thorough":
+            exps |= {rng.randrange(3, 1000) for _ in range(6)} | {255, 256, 257, 511, 512, 1000}
+        for e in sorted(x for x in exps if x >= 0):
+            if b.bit_length() * e > maxbits:
+                continue
+            yield Case("u.pow", [hx(b), dec(e)])
+            yield Case("i.pow", [hx(-b if rng.random() < 0.6 else b), dec(e)])
+
+_generate_base = generate
+
+def generate(rng, tier):
+    yield from _generate_base(rng, tier)
+    yield from boundary_cases(rng, tier)
+    yield from mul_threshold_cases(rng, tier)
+    yield from pow_cases(rng, tier)
+
 LEVEL_TEXT = ("Machine-checked Lean 4 theorems, for every word size and operand length, that the word-level carry/borrow "
               "loops, the inline/heap dispatch and from_buffer normalisation compute exact sums/differences with canonical "
               "results; the hand-written model is tied to /repo on every run by differential execution of model and real "
